@@ -107,7 +107,9 @@ def run_schedule(queries, order):
     lex.Lexer.token = token
     try:
         import contextvars
-        ths = [threading.Thread(target=(contextvars.copy_context().run if copy_ctx else (lambda f, i: f(i))), args=(work, i)) for i in range(len(queries))]
+        # every third schedule: the application gives all its workers the same name
+        same_name = {"name": "worker"} if SCHEDULE_NO[0] % 3 == 0 else {}
+        ths = [threading.Thread(target=(contextvars.copy_context().run if copy_ctx else (lambda f, i: f(i))), args=(work, i), **same_name) for i in range(len(queries))]
         for t in ths:
             t.start()
         for t in ths:
@@ -174,7 +176,7 @@ def line_level(a, b, seq, limit):
                 res["b"] = outcome(TH.parse, b)
             finally:
                 b_done.set()
-        ta, tb = threading.Thread(target=run_a), threading.Thread(target=run_b)
+        ta, tb = threading.Thread(target=run_a, name="worker"), threading.Thread(target=run_b, name="worker")
         ta.start()
         tb.start()
         ta.join(30)
